@@ -193,7 +193,7 @@ func C01(p *an.Prog, r *an.Report) {
 		}
 	}
 	c01Order(p, r, pairs)
-	c01Block(p, r)
+	c01Block(p, r, "C01.R5")
 	c11Threshold(p, r) // R6 (same rule as C11.M5)
 }
 
@@ -425,10 +425,10 @@ type kacRange struct {
 	what   string
 }
 
-func c01Block(p *an.Prog, r *an.Report) {
+func c01Block(p *an.Prog, r *an.Report, rule string) {
 	pkg := p.Pkg("keys_and_cert")
 	if pkg == nil {
-		r.Fail("C01.R5: package keys_and_cert not found")
+		r.Fail(rule+": package keys_and_cert not found")
 		return
 	}
 	callers := map[*ssa.Function][]*ssa.Call{}
@@ -480,7 +480,7 @@ func c01Block(p *an.Prog, r *an.Report) {
 		}
 	}
 	if writer == nil {
-		r.Ob("C01.R5", "writer", "-", an.Undecided, "no function of keys_and_cert allocates the 384-byte block")
+		r.Ob(rule, "writer", "-", an.Undecided, "no function of keys_and_cert allocates the 384-byte block")
 	} else {
 		var dst []kacRange
 		for _, b := range writer.Blocks {
@@ -543,7 +543,7 @@ func c01Block(p *an.Prog, r *an.Report) {
 		for _, d := range dst {
 			forms = append(forms, "["+d.lo.String()+","+d.hi.String()+")")
 		}
-		r.Check(len(bad) == 0 && len(dst) >= 3, "C01.R5", "writer/"+an.FnKey(writer), p.FnPos(writer),
+		r.Check(len(bad) == 0 && len(dst) >= 3, rule, "writer/"+an.FnKey(writer), p.FnPos(writer),
 			"the key block is written as crypto key [0,P) | padding [P,256) | padding [256,384-S) | signing key [384-S,384) for all 20 supported size pairs",
 			append(bad, "copy destinations: "+strings.Join(forms, " "))...)
 	}
@@ -552,7 +552,7 @@ func c01Block(p *an.Prog, r *an.Report) {
 	for _, name := range []string{"ReadKeysAndCert", "ReadKeysAndCertElgAndEd25519", "ReadKeysAndCertX25519AndEd25519"} {
 		root := pkg.Func(name)
 		if root == nil {
-			r.Fail("C01.R5: anchor keys_and_cert.%s not found", name)
+			r.Fail(rule+": anchor keys_and_cert.%s not found", name)
 			continue
 		}
 		var rng []kacRange
@@ -654,7 +654,7 @@ func c01Block(p *an.Prog, r *an.Report) {
 			}
 		}
 		sort.Strings(forms)
-		r.Check(len(bad) == 0 && len(rng) >= 3, "C01.R5", "reader/keys_and_cert."+name, p.FnPos(root),
+		r.Check(len(bad) == 0 && len(rng) >= 3, rule, "reader/keys_and_cert."+name, p.FnPos(root),
 			"the reader takes the crypto key from the start, the padding from [P,256) and [256,384-S), the signing key from [384-S,384)",
 			append(bad, "input ranges read: "+strings.Join(forms, " "))...)
 	}
